@@ -14,7 +14,10 @@ LEVEL_TEXT = ("The 216-point product {use_cache true/omitted/false} x {lock abse
               "true/omitted/false} x {extensions omitted/[rs]/[rsx]} x {check, edit} is covered completely in each tier (tiers differ "
               "in worlds per point); with the cache off no open/rename/unlink of the lock may appear at the seam; defaults, the "
               "valid-lock start value, the corrupt-lock fallback and the second-run continuation are read off the chosen IDs; error "
-              "configurations must exit non-zero without any mutating call. Worlds per point are sampled: exploration.")
+              "configurations must exit non-zero without any mutating call. Cache-off points are additionally ended by a signal, "
+              "I/O error or kill at sampled operations (the lock must still not be touched); cache-on edit points get a run in which "
+              "one file's update fails (the lock must still be written above every inserted ID). Worlds per point are sampled: "
+              "exploration.")
 LEVEL_NOTE = "Trusted: seam completeness for lock access; planted IDs are >= 50 so that a restart at 1 is distinguishable."
 RULE = ("case index -> configuration point (index mod 216, complete product) or error configuration; world seeded per case; 1 run, "
         "+1 run after 'delete top statement, add one' for lock-using edit points. Non-trivial = every case (each is a distinct "
